@@ -225,8 +225,39 @@ def _guard_chain(node: ast.AST, root: ast.AST, parents: Dict[int, ast.AST]) -> T
     return tuple(reversed(out))
 
 
-def fingerprint(fn: FuncInfo, shared_names: Set[str]) -> Counter:
-    """Multiset of effect items of one function in the common vocabulary."""
+def is_private_helper(fi: FuncInfo) -> bool:
+    n = fi.name
+    return n.startswith("_") and not n.startswith("__") and all(d in ("staticmethod", "classmethod") for d in fi.decorators)
+
+
+def _helper_of(fn: FuncInfo, call: ast.Call) -> Optional[FuncInfo]:
+    """the private helper of the same module / class that `call` (in the normalised copy of fn) invokes, if any"""
+    f = call.func
+    name = None
+    if isinstance(f, ast.Name):
+        name = f.id
+        cand = fn.module.functions.get(name)
+    elif isinstance(f, ast.Attribute) and isinstance(f.value, ast.Name) and f.value.id in ("self", "cls"):
+        name = f.attr
+        owner = fn.cls
+        g = fn
+        while owner is None and g.parent is not None:
+            g = g.parent
+            owner = g.cls
+        cand = owner.methods.get(name) if owner is not None else None
+    else:
+        return None
+    if cand is not None and is_private_helper(cand) and cand is not fn:
+        return cand
+    return None
+
+
+def fingerprint(fn: FuncInfo, shared_names: Set[str], _depth: int = 0, _outer: Tuple[str, ...] = ()) -> Counter:
+    """Multiset of effect items of one function in the common vocabulary. The effects of private helpers of the same module
+    or class (functions whose name starts with one underscore) are folded into their callers, under the caller's guards:
+    extracting statements into such a helper - on one side or on both - does not change the fingerprint."""
+    from .common import effective_guards
+
     _alpha.anonymous = True  # type: ignore[attr-defined]
     try:
         t = normalised(fn)
@@ -237,6 +268,19 @@ def fingerprint(fn: FuncInfo, shared_names: Set[str]) -> Counter:
         for c in ast.iter_child_nodes(n):
             parents[id(c)] = n
     fp: Counter = Counter()
+    _gcache: Dict[int, Tuple[str, ...]] = {}
+
+    def _guard_chain(n, root, parents_):  # canonical, order-free (shadowing the lexical version below)
+        stmt = n
+        while stmt is not None and not isinstance(stmt, (ast.stmt, ast.IfExp)) and parents_.get(id(stmt)) is not None:
+            nxt = parents_.get(id(stmt))
+            if isinstance(nxt, ast.IfExp):
+                break
+            stmt = nxt
+        key = id(n)
+        if key not in _gcache:
+            _gcache[key] = tuple(sorted(set(_outer) | set(effective_guards(n, root, _txt, parents_))))
+        return _gcache[key]
     a = t.args
     pos = a.posonlyargs + a.args
     dmap: Dict[str, str] = {}
@@ -245,12 +289,13 @@ def fingerprint(fn: FuncInfo, shared_names: Set[str]) -> Counter:
     for arg, d in zip(a.kwonlyargs, a.kw_defaults):
         if d is not None:
             dmap[arg.arg] = _txt(d)
-    for arg in pos + a.kwonlyargs:
-        if arg.arg in ("REQ", "start_response", "receive", "send", "self", "cls"):
-            continue
-        fp[("param", arg.arg, dmap.get(arg.arg, "<required>"))] += 1
-    for d in t.decorator_list:
-        fp[("decorator", _txt(d))] += 1
+    if _depth == 0:
+        for arg in pos + a.kwonlyargs:
+            if arg.arg in ("REQ", "start_response", "receive", "send", "self", "cls"):
+                continue
+            fp[("param", arg.arg, dmap.get(arg.arg, "<required>"))] += 1
+        for d in t.decorator_list:
+            fp[("decorator", _txt(d))] += 1
     for n in ast.walk(t):
         if n is t:
             continue
@@ -279,11 +324,14 @@ def fingerprint(fn: FuncInfo, shared_names: Set[str]) -> Counter:
         elif isinstance(n, ast.Call):
             f = n.func
             name = f.attr if isinstance(f, ast.Attribute) else (f.id if isinstance(f, ast.Name) else "")
-            if name in shared_names:
+            helper = _helper_of(fn, n) if _depth < 3 else None
+            if helper is not None:
+                fp.update(fingerprint(helper, shared_names, _depth + 1, g))
+            elif name in shared_names:
                 args = [_txt(x) for x in n.args if _txt(x) not in ("REQ", "start_response", "receive", "send")]
                 kws = sorted(_txt(ast.keyword(arg=k.arg, value=k.value)) if False else f"{ {'environ': 'req', 'scope': 'req'}.get(k.arg, k.arg) }={_txt(k.value)}" for k in n.keywords)
                 fp[("call", name, tuple(args), tuple(kws), g)] += 1
-        elif isinstance(n, ast.Return) and n.value is not None:
+        elif isinstance(n, ast.Return) and n.value is not None and _depth == 0:
             fp[("return", _shape(n.value))] += 1
     return fp
 
